@@ -492,6 +492,74 @@ func (e *env) runRevocation(j job) {
 	w.judge(a, follow, exp, out, j)
 }
 
+// runDoubleRevocation: an operator revokes two different permissions of one member
+// back to back (both messages are in the member's queue before it handles either).  Both
+// revocations must hold afterwards: the member is told of a permission set lacking both,
+// and the action that needs the FIRST revoked permission is refused.
+func (e *env) runDoubleRevocation(j job) {
+	run := e.run
+	r := run.Rand(15, uint64(j.I))
+	pairs := [][2]revSpec{{revSpecs[1], revSpecs[0]}, {revSpecs[0], revSpecs[1]}, {revSpecs[1], revSpecs[2]}, {revSpecs[2], revSpecs[1]}, {revSpecs[0], revSpecs[2]}, {revSpecs[2], revSpecs[0]}}
+	pr := pairs[j.I%len(pairs)]
+	first, second := pr[0], pr[1]
+	follow := kindByName(first.follow[r.IntN(len(first.follow))])
+	w := e.newWorld(fmt.Sprintf("b%dj%d", e.batch, j.I), "", targetPermsFor(follow.name))
+	w.users["act"] = allPerms
+	w.desc = fmt.Sprintf("(double revocation: %s and %s back to back, then %s)", first.revoke, second.revoke, follow.name)
+	defer w.close()
+	if !w.setup() {
+		return
+	}
+	a := w.makeActor("joined", permSetByName("full"), "")
+	if a == nil {
+		return
+	}
+	if !w.quiesce() {
+		return
+	}
+	from := a.c.EventCount()
+	w.logf("helper %s %s and, without waiting, %s %s", first.revoke, a.c.ID, second.revoke, a.c.ID)
+	w.hlp.Send(vclient.Msg{"type": "useraction", "kind": first.revoke, "source": w.hlp.ID, "dest": a.c.ID})
+	w.hlp.Send(vclient.Msg{"type": "useraction", "kind": second.revoke, "source": w.hlp.ID, "dest": a.c.ID})
+	if !w.quiesce() {
+		return
+	}
+	var last []string
+	seen := 0
+	for _, m := range news(a.c, from) {
+		if m.Str("type") == "joined" && m.Str("kind") == "change" {
+			last = m.StrList("permissions")
+			seen++
+		}
+	}
+	run.Eval(1)
+	if seen == 0 {
+		w.inconclusive("the actor was never notified of the revocations")
+		return
+	}
+	w.logf("actor notified %d times, permissions now %v", seen, last)
+	if has(last, first.perm) || has(last, second.perm) {
+		w.mu.Lock()
+		l := append([]string(nil), w.log...)
+		w.mu.Unlock()
+		run.Violation("revocation-undone-by-next-revocation", fmt.Sprintf("an operator sent %q and then %q for one member; at quiescence the member's last notification lists permissions %v", first.revoke, second.revoke, last), map[string]any{"batch": e.batch, "scenario": w.desc, "log": l})
+		return
+	}
+	a.perms = without(without(a.perms, first.perm), second.perm)
+	if first.revoke == "unop" || second.revoke == "unop" {
+		a.perms = without(a.perms, "record")
+	}
+	a.state = "revoked:" + first.perm
+	if closedNow(w.tgt) {
+		return
+	}
+	out := w.perform(a, follow, w.tgt, j, false)
+	w.judge(a, follow, false, out, j)
+	if !out.wd && !w.bad && !out.performed {
+		run.Count("refused_after_double_revocation", 1)
+	}
+}
+
 // runRevocationRace: the actor keeps sending while the revocation is under way.  What was
 // sent after the actor had been notified must be refused; before that either outcome is fine.
 func (e *env) runRevocationRace(j job) {
